@@ -13,6 +13,8 @@ import ALV.Lemmas.C18Norm
 import ALV.Lemmas.C18Surj
 import ALV.Lemmas.C18Res
 import ALV.Model.C18Riff
+import ALV.Lemmas.C18Riff
+import ALV.Lemmas.C18Call
 import ALV.Common.Audit
 
 namespace ALV.Props.C18
@@ -522,16 +524,314 @@ theorem riff_refuses (file : Bytes) :
 example : parseRiff (buildRiff [(([0x4C, 0x49, 0x53, 0x54] : Bytes), [1, 2, 3])] [] [(([0x69, 0x64, 0x33, 0x20] : Bytes), [9])]
     2 8000 16 [1, 0, 2, 0, 0xFF, 0x7F, 0, 0x80]) = .ok ⟨2, 2, 8000, [1, 0, 2, 0, 0xFF, 0x7F, 0, 0x80]⟩ := by rfl
 
--- PENDING
-/-- every well-formed file is read back exactly: any extra chunks (names other than `fmt ` and `data`)
-before `fmt `, between `fmt ` and `data`, after `data`, odd sizes padded.  Checked on every generated
-file by the tie (the driver parses the bytes the real `wave` module is given); not proved. -/
-def riff_parse_build_PENDING : Prop :=
-  ∀ (pre mid post : List (Bytes × Bytes)) (channels rate bits : Nat) (data : Bytes),
-    (∀ c ∈ pre ++ mid, c.1.length = 4 ∧ c.1 ≠ idFmt ∧ c.1 ≠ idData) → (∀ c ∈ post, c.1.length = 4) →
-    0 < channels → channels < 2 ^ 16 → rate < 2 ^ 32 → 0 < bits → bits < 2 ^ 16 →
-    (buildRiff pre mid post channels rate bits data).length < 2 ^ 32 →
-    parseRiff (buildRiff pre mid post channels rate bits data) = .ok ⟨channels, headerSampwidth bits, rate, data⟩
+/-- **C18.29** (was PENDING) every well-formed file is read back exactly: any extra chunks (names other
+than `fmt ` and `data`, any content, odd sizes padded) before `fmt `, between `fmt ` and `data`, and ANY
+chunks at all after `data` (the reader never looks at them: no hypothesis on `post`); by induction on
+the chunk lists, for the builder `buildRiff` and the reader shaped like `wave.Wave_read.initfp`. -/
+theorem riff_parse_build (pre mid post : List (Bytes × Bytes)) (channels rate bits : Nat) (data : Bytes)
+    (hpm : ∀ c ∈ pre ++ mid, c.1.length = 4 ∧ c.1 ≠ idFmt ∧ c.1 ≠ idData)
+    (hc0 : 0 < channels) (hc : channels < 2 ^ 16) (hr : rate < 2 ^ 32) (hb0 : 0 < bits) (hb : bits < 2 ^ 16)
+    (hlen : (buildRiff pre mid post channels rate bits data).length < 2 ^ 32) :
+    parseRiff (buildRiff pre mid post channels rate bits data) = .ok ⟨channels, headerSampwidth bits, rate, data⟩ :=
+  parseRiff_buildRiff pre mid post channels rate bits data hpm hc0 hc hr hb0 hb hlen
+
+/-- non-vacuity: the hypotheses hold for a file with a LIST chunk of odd size before `fmt `, a `fact`
+chunk between, and a chunk after `data` whose name is not even four bytes long -/
+example : parseRiff (buildRiff [(([0x4C, 0x49, 0x53, 0x54] : Bytes), [1, 2, 3])] [(([0x66, 0x61, 0x63, 0x74] : Bytes), [7, 7])]
+    [(([0x69] : Bytes), [9])] 2 8000 24 [1, 0, 2, 0, 0xFF, 0x7F]) = .ok ⟨2, 3, 8000, [1, 0, 2, 0, 0xFF, 0x7F]⟩ :=
+  riff_parse_build _ _ _ 2 8000 24 _ (by decide) (by decide) (by decide) (by decide) (by decide) (by decide)
+    (by decide)
+
+/-- **C18.30** the reader composed with the stream: `WavStream` over the BYTES of any well-formed file
+(extra chunks included) yields what C18.6b says about its data chunk, and `rate`, `channels`, `bits`
+are the header's (for the four PCM widths `bits` is the header field itself). -/
+theorem wavstream_over_file_bytes {K : Type} [IntCast K] [Div K] (pre mid post : List (Bytes × Bytes))
+    (channels rate bits : Nat) (data : Bytes) (keep : Bool)
+    (hpm : ∀ c ∈ pre ++ mid, c.1.length = 4 ∧ c.1 ≠ idFmt ∧ c.1 ≠ idData)
+    (hcc : channels = 1 ∨ channels = 2) (hr : rate < 2 ^ 32)
+    (hb : bits = 8 ∨ bits = 16 ∨ bits = 24 ∨ bits = 32) (frames : Nat)
+    (hd : data.length = frames * channels * (bits / 8))
+    (hlen : (buildRiff pre mid post channels rate bits data).length < 2 ^ 32) :
+    ∃ f, parseRiff (buildRiff pre mid post channels rate bits data) = .ok f ∧
+      (wavStream f keep : WavObs K).gen
+        = ⟨wavSpec bits keep ((splitEvery (bits / 8) data).map (storedValue bits)), none⟩ ∧
+      (wavStream f keep : WavObs K).rate = rate ∧ (wavStream f keep : WavObs K).channels = channels ∧
+      (wavStream f keep : WavObs K).bits = bits := by
+  have hsw : headerSampwidth bits = bits / 8 := by
+    rcases hb with rfl | rfl | rfl | rfl <;> rfl
+  have hbits : 8 * (bits / 8) = bits := by rcases hb with rfl | rfl | rfl | rfl <;> rfl
+  refine ⟨⟨channels, headerSampwidth bits, rate, data⟩, ?_, ?_, rfl, rfl, ?_⟩
+  · exact riff_parse_build pre mid post channels rate bits data hpm
+      (by rcases hcc with rfl | rfl <;> decide) (by rcases hcc with rfl | rfl <;> decide) hr
+      (by rcases hb with rfl | rfl | rfl | rfl <;> decide) (by rcases hb with rfl | rfl | rfl | rfl <;> decide) hlen
+  · rw [hsw]; exact wavstream_any_file bits hb channels hcc rate keep data frames hd
+  · show 8 * headerSampwidth bits = bits
+    rw [hsw, hbits]
+
+/-! ## byte-order spellings -/
+
+/-- **C18.31** the seven spellings of `byte_order`: `"<"` is little endian, `">"` and `"!"` are big
+endian, omitted / `None` / `"@"` / `"="` are the machine's order — the struct module's prefix table and
+the array strategy's `{"<": "little", ">": "big", "!": "big"}.get(byte_order, sys.byteorder)` are this one
+function; on this platform (ASSUMPTION `native = little`, read from `sys.byteorder` by the tie) five
+spellings are little endian and two are big endian. -/
+theorem byte_order_spellings (native : Order) (a : OrderArg) :
+    resolveOrder native a.order =
+        (match a with | .lt => Order.little | .gt => .big | .bang => .big | _ => native)
+      ∧ (native = .little →
+          (resolveOrder native a.order = .big ↔ (a = .gt ∨ a = .bang))
+          ∧ (resolveOrder native a.order = .little ↔ (a ≠ .gt ∧ a ≠ .bang))) := by
+  refine ⟨by cases a <;> rfl, fun h => ?_⟩
+  subst h
+  cases a <;> simp [resolveOrder, OrderArg.order]
+
+/-- **C18.31b** which spellings are prefixes with STANDARD sizes (`l` / `L` are 4 bytes under them, the
+machine's `long` otherwise — the driver picks the width of those two formats by it): `"="`, `"<"`, `">"`,
+`"!"`; every spelling that names an order is one of them. -/
+theorem order_std_prefix (a : OrderArg) :
+    (a.std = true ↔ (a = .eq ∨ a = .lt ∨ a = .gt ∨ a = .bang)) ∧ (a.order.isSome = true → a.std = true) := by
+  cases a <;> simp [OrderArg.std, OrderArg.order]
+
+example : resolveOrder .little OrderArg.eq.order = .little ∧ resolveOrder .big OrderArg.at.order = .big
+    ∧ resolveOrder .little OrderArg.bang.order = .big := by decide
+
+/-! ## both strategies over the table of formats, every value -/
+
+/-- **C18.32** "identically for the struct and array strategies and for every byte order": for every
+format of the table, every spelling of the byte order, every machine order, size ≥ 1, pad value and
+sequence of Python numbers — in range or NOT (both stop at the same item with the same failure) —
+`chunks.array` yields what `chunks.struct` yields, provided no finite double overflows the 32-bit
+float format (the one place where the code differs: struct raises OverflowError, an array stores
+inf); for every format other than f the proviso is void. -/
+theorem chunks_table_struct_eq_array (native : Order) (a : OrderArg) (fmt : Fmt) (size : Nat) (hs : 0 < size)
+    (pad : PVal) (xs : List PVal)
+    (hf : fmt = .f → ∀ x ∈ pad :: xs, leElem true .f x = leElem false .f x) :
+    chunksArrayPy native a fmt size pad xs = chunksStructPy native a fmt size pad xs := by
+  unfold chunksArrayPy chunksStructPy
+  obtain ⟨z, hz⟩ := leElem_zero_ok fmt
+  rw [chunksArray_eq_spec native _ _ _ z hz size hs pad xs, chunksStruct_eq_spec _ _ size hs pad xs]
+  apply chunksSpec_congr _ _ size hs
+  intro x hx
+  unfold encOrder
+  by_cases h : fmt = .f
+  · subst h; rw [hf rfl x hx]
+  · rw [leElem_strict_irrelevant false true fmt h x]
+
+/-- non-vacuity, with the extremes of the 16-bit format and a value outside it: both stop after one chunk -/
+example : chunksArrayPy .little .bang .h 2 (.int 0) [.int (-32768), .int 32767, .int 32768, .int 5]
+    = ⟨[[0x80, 0, 0x7F, 0xFF]], some .range⟩ := by rfl
+example : chunksStructPy .little .bang .h 2 (.int 0) [.int (-32768), .int 32767, .int 32768, .int 5]
+    = ⟨[[0x80, 0, 0x7F, 0xFF]], some .range⟩ := by rfl
+
+/-- **C18.32b** the StrategyDict entry `chunks(...)`: whichever strategy `chunks.default` names (the
+docstring suggests `chunks.default = chunks.array`), the call yields the same chunks and stops at the
+same item; only the CLASS of the exception follows the strategy (`structExc` / `arrayExc`). -/
+theorem chunks_entry_any_default (native : Order) (a : OrderArg) (fmt : Fmt) (size : Nat) (hs : 0 < size)
+    (pad : PVal) (xs : List PVal)
+    (hf : fmt = .f → ∀ x ∈ pad :: xs, leElem true .f x = leElem false .f x) :
+    (chunksEntry .array native a fmt fmt size pad xs).out = (chunksEntry .struct native a fmt fmt size pad xs).out
+      ∧ ((chunksEntry .array native a fmt fmt size pad xs).err.isSome
+          = (chunksEntry .struct native a fmt fmt size pad xs).err.isSome)
+      ∧ (chunksEntry .struct native a fmt fmt size pad xs).err
+          = (chunksStructPy native a fmt size pad xs).err.map structExc
+      ∧ (chunksEntry .array native a fmt fmt size pad xs).err
+          = (chunksStructPy native a fmt size pad xs).err.map arrayExc := by
+  have h := chunks_table_struct_eq_array native a fmt size hs pad xs hf
+  simp only [chunksEntry, h]
+  refine ⟨trivial, ?_, trivial, trivial⟩
+  cases (chunksStructPy native a fmt size pad xs).err <;> rfl
+
+example : chunksEntry .array .little .gt .h .h 2 (.int 0) [.int 1, .int 2, .int 40000]
+    = ⟨[[0, 1, 0, 2]], some .overflowError⟩ := by rfl
+example : chunksEntry .struct .little .gt .h .h 2 (.int 0) [.int 1, .int 2, .int 40000]
+    = ⟨[[0, 1, 0, 2]], some .structError⟩ := by rfl
+
+/-- **C18.33** the extreme values of every integer width are inside the format and their neighbours are
+outside: −2^(8w−1) and 2^(8w−1)−1 signed (−128, 127, −32768, 32767, −2³¹, 2³¹−1, …), 0 and 2^(8w)−1
+unsigned; so C18.14 / C18.24 / C18.32 speak about them, in every position. -/
+theorem int_extremes (w : Nat) :
+    inRange w (-(2 ^ (8 * w - 1))) ∧ inRange w (2 ^ (8 * w - 1) - 1)
+      ∧ ¬ inRange w (-(2 ^ (8 * w - 1)) - 1) ∧ ¬ inRange w (2 ^ (8 * w - 1))
+      ∧ inURange w 0 ∧ inURange w (2 ^ (8 * w) - 1) ∧ ¬ inURange w (-1) ∧ ¬ inURange w (2 ^ (8 * w)) := by
+  have hp : (0 : Int) < 2 ^ (8 * w - 1) := Int.pow_pos (by omega)
+  have hq : (0 : Int) < 2 ^ (8 * w) := Int.pow_pos (by omega)
+  unfold inRange inURange
+  refine ⟨⟨by omega, by omega⟩, ⟨by omega, by omega⟩, by omega, by omega, ⟨by omega, hq⟩, ⟨by omega, by omega⟩,
+    by omega, by omega⟩
+
+example : inRange 1 (-128) ∧ inRange 4 (-2147483648) ∧ ¬ inRange 4 2147483648 ∧ inURange 8 18446744073709551615 := by
+  decide
+
+/-- **C18.34** a value outside the format (or a float / Fraction in an integer format), after a prefix
+of storable items: BOTH strategies yield exactly the chunks of the whole groups of the prefix
+(`⌊len/size⌋` of them) and then raise — `struct.error` from the struct strategy, `OverflowError`
+(range) or `TypeError` (not an integer) from the array strategy: the classes differ, as coded. -/
+theorem chunks_stop_at_unstorable (native : Order) (a : OrderArg) (fmt : Fmt) (hfm : fmt ≠ .f) (size : Nat)
+    (hs : 0 < size) (pad : PVal) (good : List PVal) (goodB : List Bytes) (bad : PVal) (e : PackErr)
+    (rest : List PVal)
+    (hg : good.map (encOrder (resolveOrder native a.order) (leElem true fmt)) = goodB.map Except.ok)
+    (hb : leElem true fmt bad = .error e) :
+    let s := chunksStructPy native a fmt size pad (good ++ bad :: rest)
+    chunksArrayPy native a fmt size pad (good ++ bad :: rest) = s
+      ∧ s.err = some e ∧ s.out.length = good.length / size
+      ∧ (e = .range → structExc e = .structError ∧ arrayExc e = .overflowError)
+      ∧ (e = .notInt → structExc e = .structError ∧ arrayExc e = .typeError) := by
+  have hbad : encOrder (resolveOrder native a.order) (leElem true fmt) bad = .error e := by
+    simp [encOrder, hb, Except.map]
+  have hsp := chunksSpec_stops _ size hs pad bad e hbad rest good.length good goodB rfl hg
+  refine ⟨chunks_table_struct_eq_array native a fmt size hs pad _ (fun h => absurd h hfm), ?_, ?_,
+    fun h => by subst h; exact ⟨rfl, rfl⟩, fun h => by subst h; exact ⟨rfl, rfl⟩⟩
+  · show (chunksStruct _ _ size pad _).err = some e
+    rw [chunksStruct_eq_spec _ _ size hs, hsp]
+  · show (chunksStruct _ _ size pad _).out.length = _
+    rw [chunksStruct_eq_spec _ _ size hs, hsp]
+    simp only [List.length_map]
+    have hl : (good.take (good.length / size * size)).length = good.length / size * size := by
+      rw [List.length_take]; exact Nat.min_eq_left (Nat.div_mul_le_self _ _)
+    have hd : size ∣ (good.take (good.length / size * size)).length := by rw [hl]; exact Nat.dvd_mul_left _ _
+    have hlens := splitEvery_lengths size hs _ (good.take (good.length / size * size)) rfl hd
+    have hfl := splitEvery_flatten size hs _ (good.take (good.length / size * size)) rfl
+    have := flatten_length_const (fun (b : List PVal) => b) size
+      (splitEvery size (good.take (good.length / size * size))) (fun b hb => hlens b hb)
+    simp only [List.map_id'] at this
+    rw [hfl, hl] at this
+    exact (Nat.eq_of_mul_eq_mul_right hs this).symm
+
+example : (chunksStructPy .little .lt .b 2 (.int 0) ([.int 1, .int 2, .int 3] ++ .int 128 :: [.int 4])).out.length
+    = [PVal.int 1, .int 2, .int 3].length / 2 := by decide
+
+/-- **C18.35** `width` (what the tie multiplies the chunk size with) is the byte count of every element
+the encoder stores, for every format of the table. -/
+theorem fmt_width (strict : Bool) (fmt : Fmt) (v : PVal) (bs : Bytes) (h : leElem strict fmt v = .ok bs) :
+    bs.length = fmt.width := by
+  unfold leElem at h
+  cases hi : fmt.intSpec with
+  | some p =>
+    obtain ⟨sg, w⟩ := p
+    have hw : fmt.width = w := by cases fmt <;> simp_all [Fmt.intSpec, Fmt.width]
+    rw [hi] at h
+    simp only at h
+    cases hv : v.asInt with
+    | none => rw [hv] at h; cases h
+    | some n =>
+      rw [hv] at h
+      simp only [packIntLE, packUIntLE] at h
+      cases sg <;> simp only [Bool.false_eq_true, if_false, if_true] at h <;>
+        (split at h <;> cases h; rw [leBytes_length, hw])
+  | none =>
+    rw [hi] at h
+    simp only at h
+    by_cases hd : fmt = .d
+    · subst hd; simp only [if_true] at h; cases h; rw [leBytes_length]; rfl
+    · have hf : fmt = .f := by cases fmt <;> simp_all [Fmt.intSpec]
+      subst hf
+      simp only [if_neg hd] at h
+      split at h
+      · cases h
+      · cases h; rw [leBytes_length]; rfl
+
+/-! ## the trace the tie compares is the run the theorems speak about -/
+
+/-- **C18.36** `rTrace` (what the driver prints: after every event the observation and the whole state)
+erases to `rRun` (what C18.17–22 are about): the observations are the run's observations, there is one
+entry per event, and the `i`-th state is the state of the run over the first `i + 1` events. -/
+theorem trace_is_run {β : Type} (g : Gen β WavErr) (early : Bool) (evs : List Ev) (s : RS) :
+    (rTrace g early evs s).filterMap (·.1) = (rRun g early evs s).1
+      ∧ (rTrace g early evs s).length = evs.length
+      ∧ ∀ i p, (rTrace g early evs s)[i]? = some p → p.2 = (rRun g early (evs.take (i + 1)) s).2 :=
+  ⟨rTrace_obs g early evs s, rTrace_length g early evs s, rTrace_state g early evs s⟩
+
+example : ((rTrace (⟨[1, 2], none⟩ : Gen Nat WavErr) false [.next, .collect, .next] (openSt [] 0 false)).map
+    fun p => p.2.handles) = [[hOpen], [hClosed], [hClosed]] := by decide
+
+/-! ## the call `WavStream(wave_file, keep=False)` -/
+
+section call
+variable {K : Type} [IntCast K] [Div K]
+
+/-- **C18.37** every shape of the call: `keep` is the SECOND parameter and defaults to `False`; given
+positionally, by keyword (the file positionally or as `wave_file=`) or omitted, the stream is
+`wavStream f` with the TRUTH VALUE of what was passed — so every theorem about `wavStream f keep` is
+about the call.  Three positionals, `keep` twice, an unknown keyword or no file: TypeError. -/
+theorem wavstream_call_shapes (f : WavFile) (k : PyV) :
+    wavStreamCall (K := K) f [.file] [] = .ok (wavStream f false)
+      ∧ wavStreamCall (K := K) f [.file, k] [] = .ok (wavStream f k.truthy)
+      ∧ wavStreamCall (K := K) f [.file] [("keep", k)] = .ok (wavStream f k.truthy)
+      ∧ wavStreamCall (K := K) f [] [("wave_file", .file), ("keep", k)] = .ok (wavStream f k.truthy)
+      ∧ wavStreamCall (K := K) f [] [("keep", k), ("wave_file", .file)] = .ok (wavStream f k.truthy)
+      ∧ wavStreamCall (K := K) f [] [("wave_file", .file)] = .ok (wavStream f false)
+      ∧ wavStreamCall (K := K) f [.file, k, k] [] = .error .typeError
+      ∧ wavStreamCall (K := K) f [.file, k] [("keep", k)] = .error .typeError
+      ∧ wavStreamCall (K := K) f [] [("keep", k)] = .error .typeError
+      ∧ (∀ name, name ≠ "wave_file" → name ≠ "keep" →
+          wavStreamCall (K := K) f [.file] [(name, k)] = .error .typeError) := by
+  refine ⟨rfl, rfl, rfl, rfl, rfl, rfl, rfl, rfl, rfl, ?_⟩
+  intro name h1 h2
+  simp [wavStreamCall, bindWav, ALV.C08.bind, wavParams, h1, h2]
+
+/-- **C18.38** truthy and falsy spellings of `keep`: `False 0 0.0 -0.0 None "" [] ()` read as `False`,
+everything else (`True`, any other number, NaN, a non-empty string or list) as `True`. -/
+theorem keep_truthiness (n : Int) (s : String) (len : Nat) :
+    PyV.truthy (.bool false) = false ∧ PyV.truthy (.bool true) = true ∧ PyV.truthy .none = false
+      ∧ (PyV.truthy (.int n) = true ↔ n ≠ 0) ∧ (PyV.truthy (.str s) = true ↔ s ≠ "")
+      ∧ (PyV.truthy (.list len) = true ↔ len ≠ 0) := by
+  simp [PyV.truthy]
+
+end call
+
+example : wavStreamCall (K := Rat) ⟨1, 2, 8000, [0, 0x80]⟩ [.file, .list 1] []
+    = .ok (wavStream ⟨1, 2, 8000, [0, 0x80]⟩ true) := (wavstream_call_shapes _ (.list 1)).2.1
+
+/-! ## how much of the file is read (laziness in bytes) -/
+
+/-- **C18.39** after `k` `next()` calls on a fresh stream the unread part of the data chunk is the
+data chunk minus `framesFor channels k` whole frames: one frame per sample (mono), one frame per two
+samples (otherwise; the second half waits in the generator) — so exactly `min (frames·fs) len` bytes
+of the data chunk were taken, never a byte beyond the frame of the last sample handed out, for every
+file content, truncated or not; the only byte outside the data chunk that may be taken is the
+alignment byte of an odd-sized chunk, together with its last frame (`_Chunk.read`, observed on the
+real code: a mono 24-bit file with an odd number of frames).  (How many frames ONE `readframes` call takes is fixed to 1 by the code.) -/
+theorem wav_reads_only_needed_bytes (channels sw fs : Nat) (data : Bytes) (k : Nat) :
+    let r := wavTake channels sw fs k ⟨data, [], false⟩
+    r.2.data = data.drop (framesFor channels k * fs)
+      ∧ data.length - r.2.data.length = bytesRead channels fs data k
+      ∧ bytesRead channels fs data k + alignByte channels fs data k ≤ data.length + data.length % 2
+      ∧ (bytesRead channels fs data k < data.length → alignByte channels fs data k = 0) := by
+  have h := wavTake_data channels sw fs k ⟨data, [], false⟩ (by simp)
+  have hf : framesFrom channels k 0 = framesFor channels k := rfl
+  simp only [List.length_nil, hf] at h
+  refine ⟨h, ?_, ?_, ?_⟩
+  · simp only [h, List.length_drop, bytesRead]
+    omega
+  · unfold alignByte; split <;> simp only [bytesRead] <;> omega
+  · intro hlt; unfold alignByte; rw [if_neg (by omega)]
+
+example : (wavTake 2 2 4 3 ⟨[1, 0, 2, 0, 3, 0, 4, 0, 5, 0, 6, 0], [], false⟩).2.data = [5, 0, 6, 0]
+    ∧ bytesRead 2 4 [1, 0, 2, 0, 3, 0, 4, 0, 5, 0, 6, 0] 3 = 8 := by decide
+
+/-! ## "always in [−1, 1)" over the stored integers -/
+
+/-- **C18.40** in the words of the property: for every width (any `bits ≥ 1`; 8 bit with its offset of
+128) and every list of stored integers, every value the specification yields without `keep` lies in
+`[−1, 1)`; the lowest stored integer gives exactly −1. -/
+theorem stored_normalised_in_unit_interval {K : Type} [Field K] [LinearOrder K] [IsStrictOrderedRing K]
+    (bits : Nat) (samples : List Int) (hst : ∀ n ∈ samples, stored bits n) (x : K)
+    (hx : Sample.scaled x ∈ (wavSpec bits false samples : List (Sample K))) : (-1 : K) ≤ x ∧ x < 1 := by
+  simp only [wavSpec, Bool.false_eq_true, if_false, List.mem_map] at hx
+  obtain ⟨n, hn, hx⟩ := hx
+  cases hx
+  have hs := hst n hn
+  unfold stored at hs
+  by_cases h8 : bits = 8
+  · subst h8
+    simp only [if_true] at hs ⊢
+    exact normalise_range 8 (n - 128) (by simp; omega) (by simp; omega)
+  · simp only [if_neg h8] at hs ⊢
+    exact normalise_range bits n hs.1 hs.2
+
+example : ((wavSpec 8 false [0, 255, 128] : List (Sample Rat)).map fun | .scaled x => x | .raw _ => 7)
+    = [-1, 127 / 128, 0] := by decide +kernel
+example : stored 8 0 ∧ stored 8 255 ∧ stored 24 (-8388608) := by decide
 
 end ALV.Props.C18
 
